@@ -114,7 +114,7 @@ def gen_encodings():
     out += "def spaceBytes : List Nat := %s\n" % _byteset(I.spaceCharactersBytes)
     out += "def asciiLetterBytes : List Nat := %s\n" % _byteset(I.asciiLettersBytes)
     out += "def asciiUpperBytes : List Nat := %s\n" % _byteset(I.asciiUppercaseBytes)
-    out += "def spacesAngleBrackets : List Nat := %s\n" % _byteset(I.spacesAngleBrackets)
+    out += "def spacesClosingBracket : List Nat := %s\n" % _byteset(I.spacesClosingBracket)
     s = I.HTMLBinaryInputStream(b"")
     out += "def numBytesMeta : Nat := %d\n" % s.numBytesMeta
     # -- dispatch table of EncodingParser.getEncoding in source order
